@@ -23,12 +23,12 @@ META = {'design_ref': 'DESIGN.md section 7 / C12, Appendix D',
  'level_note': 'Proved for the MODEL of both loops over ALL event orders; the tie to the real loops is (i) exact lock-step of MqttClientImpl through the facade, '
                '(ii) SAMPLED runs of the real tokio / threaded clients on scripted transports: scheduler fairness, select! branch choice, thread interleavings and '
                'OS write semantics are quantified over in the model only. Engine facts are hypotheses of the positive theorems (checked on every observed engine '
-               'call). Known findings: D13 (stop-with-DISCONNECT during the handshake never stops), D10b (huge connect_timeout panics the loop).',
+               'call). D13 (stop-with-DISCONNECT during the handshake never stopped) and D10b (huge connect_timeout panicked the loop) were found here and are fixed (d52fbbc, 8daf4ff); their witnesses run as regression cases.',
  'level_text': 'Coq theorems over models of MqttClientImpl and of both event loops: for every list of driver events (every schedule, transport behaviour, request '
                'timing) the emitted client events are a prefix of (Attempt (Failure | Success Disconnection))* with Stopped only between attempts '
                '(C12_event_grammar) and no transition_to_state fails (C12_loop_alive), given eight stated engine facts; compute_optional_state_transition equals '
-               'its specification on all 75 inputs (C12_transition_table); stop / restart / close theorems (C12_stop_stops, C12_restartable, C12_close_terminal) for '
-               'requests without the D13 defect class; refutations by computation on the engine model: C12_stop_stops_refuted (D13, both drivers, every number of '
-               'further iterations), C12_loop_alive_refuted_huge_timeout (D10b).',
+               'its specification on all 75 inputs (C12_transition_table); stop / restart / close theorems (C12_stop_stops, C12_stop_waits_only_when_established, C12_restartable, '
+               'C12_close_terminal); the former D13 / D10b counterexamples as regression theorems on the engine model '
+               '(C12_stop_during_handshake_stops, C12_loop_alive_huge_timeout, C12_deadline_total).',
  'technique': 'machine-checked proof in Coq (invariants by induction over driver-event lists; vm_compute witnesses on the engine model) + exhaustive table '
               'regeneration + lock-step correspondence of the extracted model with the implementation + sampled runs of the real drivers'}
